@@ -858,6 +858,11 @@ def main():
         files["Srv.lean"] = text
         done += d8
         failed += f8
+        # proxyhandler.cpp: what process() does with the socket it is handed
+        text, d9, f9 = cxx2lean_qt.translate_ph(repo, exp)
+        files["Ph.lean"] = text
+        done += d9
+        failed += f9
         # proxysocket.cpp: the upstream-side slots and the buffering slot, over the model's Proxy.St
         text, d4, f4 = cxx2lean_qt.translate_proxy(repo, exp)
         files["Proxy.lean"] = text
